@@ -265,6 +265,27 @@ func runsFor(prop, tier string) []run {
 				c.UnmapAnytime = true
 				return c
 			}(), pick(24, 26), minutes(pickf(0.5, 3))},
+			// the transfers are launched by jiva's REAL sync agent (process table, port allocator with a three-port range,
+			// exit-code bookkeeping; the ssync child is the harness binary): a sender that exits non-zero or is killed
+			// after the receiver sized the file, the replica process exiting after the failed rebuild, the retry meeting
+			// the receiver that is still alive
+			{"rebuild-through-the-real-sync-agent", func() eb.Cfg {
+				c := mk(withData, []string{"RB", "Step", "XferFail", "XferKill", "Crash", "MonFail"}, 2, 2, 0, 4)
+				c.RealAgent, c.AgentPorts = true, 3
+				return c
+			}(), pick(16, 50), minutes(pickf(0.7, 6))},
+			// ... from the root "the first rebuild's sender was killed, its receiver is still alive, the replica process has
+			// exited and been detached": the retry's port allocation meets the busy port when the cursor wraps
+			{"rebuild-retried-while-a-receiver-of-the-failed-attempt-lives", func() eb.Cfg {
+				init := append(append([]string{}, withData...), "RB:2")
+				for i := 0; i < 11; i++ {
+					init = append(init, "Step")
+				}
+				init = append(init, "XferKill", "Step", "Step", "Crash", "MonFail:2")
+				c := mk(init, []string{"W0", "RB", "Step"}, 3, 2, 0, 5)
+				c.RealAgent, c.AgentPorts = true, 3
+				return c
+			}(), pick(26, 28), minutes(pickf(0.7, 4))},
 			{"rebuild-with-a-file-transfer-dying-half-way", mk(withData, []string{"RB", "Step", "XferFail"}, 2, 0, 0, 3), pick(30, 60), minutes(pickf(0.6, 6))},
 		}
 	case "C16ctl":
@@ -323,6 +344,11 @@ func runsFor(prop, tier string) []run {
 			{"clone-with-a-failing-extent-query", mk(polling([]string{"Reg:0", "Start:0", "W:0", "Snap:0", "W:0", "W:0", "W:0", "W:0", "Snap:0", "W:0"}), []string{"CloneProc", "Step", "StepX", "FiemapFail"}, 0, 1, 7), pick(24, 32), minutes(pickf(0.5, 4))},
 			// one transfer of a snapshot file dies half way (the sender exits non-zero): the copy is retried from the start
 			{"clone-with-a-file-transfer-dying-half-way", mk(polling(src2), []string{"CloneProc", "Step", "StepX", "XferFail"}, 0, 1, 3), pick(24, 34), minutes(pickf(0.5, 4))},
+			{"clone-through-the-real-sync-agent", func() eb.Cfg {
+				c := mk(polling(src2), []string{"CloneProc", "Step", "StepX", "XferFail", "XferKill"}, 0, 1, 3)
+				c.RealAgent, c.AgentPorts = true, 3
+				return c
+			}(), pick(16, 40), minutes(pickf(0.7, 5))},
 			{"clone-vs-start-all-interleavings", mk(src2, []string{"BReg", "BStart", "StepX", "CloneProc", "Step"}, 0, 0, 3), pick(34, 40), minutes(pickf(1.0, 10))},
 		}
 	case "C13":
@@ -408,6 +434,7 @@ func sfoldChild() {
 
 func main() {
 	reexec.Register("sfold", sfoldChild)
+	reexec.Register("ssync", ssyncChild)
 	if reexec.Init() {
 		return
 	}
